@@ -151,6 +151,8 @@ def eval_vdiff(triples, tier, rng):
                           'case': dump(['vdiff', enc_version(a + ((),)), enc_version(b + ((),))]), 'input': [str(a), str(b)], 'kind': 'vdiff-sym'})
     return {'failures': fails[:50], 'nontrivial': len(nontrivial), 'distribution': dist, 'certs': certs}
 
+import fam_sets as FS
+
 # ================================================================== registry
 PROPERTIES = {
     'C04': {
@@ -159,6 +161,32 @@ PROPERTIES = {
                 'non-trivial = distinct pairs with equal major.minor.patch (the comparison is decided by the prerelease identifiers) and distinct lists of 3+ versions',
         'explanation': 'theorems: vcmp is a total preorder, == iff Equal iff the four compared fields coincide iff equal hash keys, build ignored, '
                        'vcmp = Lt iff the inductive SemVer-11 relation, stable sort / max / min consistent with it',
+    },
+    'C07': {
+        'families': [{'name': 'setops-isect', 'gen': FS.gen_setops(['isect']), 'eval': FS.eval_isect}],
+        'rule': 'setops family restricted to intersect: every ordered pair of one-interval ranges over the small version universe, and random multi-alternative pairs; '
+                'non-trivial = pairs for which some probed version lies within both operands (the intervals touch or overlap)',
+        'explanation': 'theorems: bounds membership of A.intersect(B) is the conjunction; release/prerelease satisfaction laws; None only if disjoint; commutative, idempotent; wf preserved',
+    },
+    'C08': {
+        'families': [{'name': 'setops-diff', 'gen': FS.gen_setops(['diff', 'isect']), 'eval': FS.eval_diff}],
+        'rule': 'setops family restricted to difference (and intersect for the partition law); non-trivial = pairs where some probed version lies within both operands (something is cut out)',
+        'explanation': 'theorems: no unwrap() is reached; membership of A.difference(B) = within A and outside every alternative of B; release satisfaction; None only if nothing remains; disjoint from B; partition with intersect; wf preserved',
+    },
+    'C09': {
+        'families': [{'name': 'setops-any', 'gen': FS.gen_setops(['allows_any', 'isect']), 'eval': FS.eval_allows_any}],
+        'rule': 'setops family restricted to allows_any (and intersect for the agreement law); non-trivial = pairs where some probed version lies within both operands',
+        'explanation': 'theorems: allows_any = intersect.is_some, symmetric, false implies disjoint bounds, true whenever a version satisfies both; endpoint examples by computation on parsed text',
+    },
+    'C10': {
+        'families': [{'name': 'setops-all', 'gen': FS.gen_setops(['allows_all', 'allows_any', 'diff']), 'eval': FS.eval_allows_all}],
+        'rule': 'setops family restricted to allows_all (plus allows_any and difference for the two linked clauses); non-trivial = pairs with a single-alternative B for which allows_all answers true',
+        'explanation': 'theorems: for single-alternative B, allows_all true implies bounds inclusion, release satisfaction inclusion and allows_any; reflexive; for single A, true iff B.difference(A) is None',
+    },
+    'C15': {
+        'families': [{'name': 'setops-trees', 'gen': FS.gen_setops(['isect', 'diff'], with_trees=True), 'eval': FS.eval_trees}],
+        'rule': 'random expression trees of depth 2-3 (thorough: 4) over intersect/difference with parsed leaves; non-trivial = trees whose value is a non-empty range',
+        'explanation': 'theorems: evaluation never panics, stays well formed, and bounds membership of the value is the Boolean algebra over the leaves (hence every identity of the property); release satisfaction likewise',
     },
     'C16': {
         'families': [{'name': 'vdiff', 'gen': gen_vdiff, 'eval': eval_vdiff}],
